@@ -440,7 +440,7 @@ def run(ctx):
                 "edgeless, two components, ladders, path ending in the last vertex; exhaustive: all graphs on <= 3 (quick) / "
                 "<= 5 (thorough) vertices x all key orders x all contiguous partitions over <= 3 ranks, 6 vertices sampled) "
                 "with distinct dyadic keys and A-values on a superset pattern; sequential: model = implementation and "
-                "mis_ok/agg_ok on the output; distributed P=1..3 (thorough ..5, also PPN=2), default and explicit "
+                "mis_ok/agg_ok on the output; distributed P=1..3 (thorough ..5, also PPN=2 and PPN=1 with tap), default and explicit "
                 "partitions incl. empty ranks, tap off/on (PPN=4): gathered output = model, = sequential implementation, "
                 "mis_ok/agg_ok_glob, shared labels agree; non-trivial = sequential: some edge; distributed: at least "
                 "two ranks own rows and some rank has off-process columns; distinct = distinct case text")
@@ -451,6 +451,8 @@ def run(ctx):
     bases = gen_bases(ctx, ctx.scale(260, 2600))
     konly = gen_konly(ctx, ctx.scale(150, 1500))
     seqres = process_seq(ctx, bases, konly)
+    # tap on only where the node-aware communicator can be built: one node, or full nodes only (the TAPComm
+    # constructor hangs when num_procs is not a multiple of PPN on more than one node; reported, outside C15)
     for P in range(1, ctx.scale(3, 5) + 1):
         pcs = []
         for b in bases:
@@ -458,16 +460,16 @@ def run(ctx):
             variants = [("default", 0, None), ("explicit", P, rand_partition(rng, b.n, P))]
             if ctx.tier != "quick": variants.append(("explicit", P, rand_partition(rng, b.n, P)))
             for (pk, Pl, first) in variants:
-                for tap in (0, 1): pcs.append(par_case(b, P, tap, pk, Pl, first, len(pcs)))
+                for tap in ((0, 1) if P <= 4 else (0,)): pcs.append(par_case(b, P, tap, pk, Pl, first, len(pcs)))
         run_par_batch(ctx, P, pcs, seqres)
     if ctx.tier != "quick":
-        # two processes per node: the node-aware path crosses nodes
-        for P in (3, 4, 5):
+        # several nodes: two full nodes of two ranks; every rank its own node
+        for P, ppn in ((4, 2), (2, 1), (3, 1), (4, 1), (5, 1)):
             pcs = []
-            for b in bases[::3]:
+            for b in bases[(P + ppn) % 3::3]:
                 pcs.append(par_case(b, P, 1, "default", 0, None, len(pcs)))
                 pcs.append(par_case(b, P, 1, "explicit", P, rand_partition(rng, b.n, P), len(pcs)))
-            run_par_batch(ctx, P, pcs, seqres, env={"PPN": "2"}, tag="ppn2")
+            run_par_batch(ctx, P, pcs, seqres, env={"PPN": str(ppn)}, tag="ppn%d" % ppn)
     # ---- exhaustive small graphs
     for chunk in exhaustive_chunks(ctx):
         sr = process_seq(ctx, chunk, tag="xseq")
